@@ -1,4 +1,5 @@
 (* Props/C16.v — property C16: scenario outline expansion. *)
+From CV Require Proofs.OutlineP2.
 From CV Require Import Model.Base Model.Outline Proofs.BaseP Proofs.OutlineP.
 
 (* The scanner is THE leftmost non-overlapping scan for <name>, name non-empty without '>' / white space *)
@@ -81,3 +82,130 @@ Proof.
   cbn. repeat split; intros l' n' H;
     repeat (destruct H as [H|H]; [inversion H; subst; vm_compute; discriminate|]); destruct H.
 Qed.
+
+
+(* ---------- THE WHOLE EXPANSION (review finding H1: `C16_instantiated` above states only the NUMBER of steps;
+   `expand_list` / `expand_feature` were in no theorem). The vocabulary (`step_inst`, `inst_out`, `expand_out`,
+   `scen_known`, `data_rows`, `inst_pstrs` ...) is defined at the top of Proofs/OutlineP2.v. ---------- *)
+
+(* substitution, both directions: success iff every placeholder names a column, and then the result is the token-wise
+   replacement; failure names an unknown placeholder of that string after which every placeholder is known *)
+Theorem C16_subst_succeeds_iff :
+  forall r s out, subst r s = inl out <-> OutlineP2.str_known r s /\ out = OutlineP2.subst_out r s.
+Proof. exact OutlineP2.subst_inl_iff. Qed.
+Print Assumptions C16_subst_succeeds_iff.
+
+Theorem C16_subst_fails_iff :
+  forall r s name, subst r s = inr name <->
+    exists ts1 ts2, tokenize s = ts1 ++ TPh name :: ts2 /\ row_find name r = None /\ Forall (known r) ts2.
+Proof. exact OutlineP2.subst_inr_iff. Qed.
+Print Assumptions C16_subst_fails_iff.
+
+(* "that row's value": the value in the first column of that name *)
+Theorem C16_row_value_is_first_column_of_that_name :
+  forall n h v x, row_find n (combine h v) = Some x <->
+    exists i, nth_error h i = Some n /\ nth_error v i = Some x /\ forall j, (j < i)%nat -> nth_error h j <> Some n.
+Proof. exact OutlineP2.row_find_combine. Qed.
+Print Assumptions C16_row_value_is_first_column_of_that_name.
+
+(* WHAT AN INSTANTIATED ROW IS, completely: name, EVERY step text, doc string and table cell substituted
+   (`step_inst`: text, doc, cells related by `subst r _ = inl _`, position unchanged), tags appended, position of
+   the row; and nothing else *)
+Theorem C16_instantiated_row :
+  forall sc ex id r sc',
+    instantiate sc ex id r = inl sc' <->
+    OutlineP2.sub_ok r (o_name sc) (o_name sc') /\
+    o_tags sc' = o_tags sc ++ ex_tags ex /\
+    Forall2 (OutlineP2.step_inst r) (o_steps sc) (o_steps sc') /\
+    o_examples sc' = o_examples sc /\
+    o_line sc' = ex_line ex + (id + 2) /\ o_col sc' = ex_col ex.
+Proof. exact OutlineP2.instantiate_inl_iff. Qed.
+Print Assumptions C16_instantiated_row.
+
+(* ... in closed form: it succeeds iff every placeholder of the name and of every step string is a column, and
+   the result is then `inst_out` *)
+Theorem C16_instantiated_row_closed_form :
+  forall sc ex id r sc',
+    instantiate sc ex id r = inl sc' <-> OutlineP2.all_known r sc /\ sc' = OutlineP2.inst_out sc ex id r.
+Proof. exact OutlineP2.instantiate_inl_known_iff. Qed.
+Print Assumptions C16_instantiated_row_closed_form.
+
+(* ... and the error of a row is that of the FIRST string, in document order (name; then per step its text, doc
+   string, cells row by row), whose substitution fails, at that string's position *)
+Theorem C16_row_error :
+  forall sc ex id r e,
+    instantiate sc ex id r = inr e <->
+    exists l1 line col s n l2,
+      OutlineP2.inst_pstrs sc ex id = l1 ++ (line, col, s) :: l2 /\ Forall (OutlineP2.sub_succeeds r) l1 /\
+      subst r s = inr n /\ e = mk_xerr line col n.
+Proof. exact OutlineP2.instantiate_inr_iff. Qed.
+Print Assumptions C16_row_error.
+
+(* one scenario per data row of each table, tables in order, rows in order; header-only / absent tables give none *)
+Theorem C16_expand_scenario_count :
+  forall sc, o_examples sc <> [] ->
+    length (expand_scenario sc) = list_sum (map OutlineP2.n_data_rows (o_examples sc)).
+Proof. exact OutlineP2.expand_scenario_length. Qed.
+Print Assumptions C16_expand_scenario_count.
+
+Theorem C16_header_only_table_yields_nothing :
+  forall ex h, ex_table ex = Some [h] -> OutlineP2.data_rows ex = [].
+Proof. exact OutlineP2.data_rows_header_only. Qed.
+
+Theorem C16_expand_scenario_all_rows_in_order :
+  forall sc, o_examples sc <> [] ->
+    expand_scenario sc = map (OutlineP2.inst_row sc) (OutlineP2.all_rows sc).
+Proof. exact OutlineP2.expand_scenario_rows. Qed.
+Print Assumptions C16_expand_scenario_all_rows_in_order.
+
+Theorem C16_expand_scenario_succeeds_iff :
+  forall sc l, expand_scenario sc = map inl l <-> OutlineP2.scen_known sc /\ l = OutlineP2.expand_out sc.
+Proof. exact OutlineP2.expand_scenario_inl_iff. Qed.
+Print Assumptions C16_expand_scenario_succeeds_iff.
+
+(* the scenario list of a feature or rule: every outline replaced IN ITS PLACE by its rows, other scenarios
+   untouched; or the FIRST error, and only that *)
+Theorem C16_expand_list_succeeds_iff :
+  forall scs out, expand_list scs = inl out <->
+    Forall OutlineP2.scen_known scs /\ out = flat_map OutlineP2.expand_out scs.
+Proof. exact OutlineP2.expand_list_inl_iff. Qed.
+Print Assumptions C16_expand_list_succeeds_iff.
+
+Theorem C16_expand_list_fails_iff :
+  forall scs e, expand_list scs = inr e <->
+    exists scs1 sc scs2,
+      scs = scs1 ++ sc :: scs2 /\ Forall OutlineP2.scen_known scs1 /\ collect (expand_scenario sc) = inr e.
+Proof. exact OutlineP2.expand_list_inr_iff. Qed.
+Print Assumptions C16_expand_list_fails_iff.
+
+Theorem C16_expand_list_error_names_an_unknown_placeholder :
+  forall scs e, expand_list scs = inr e ->
+    exists sc ex id r s,
+      In sc scs /\ In ex (o_examples sc) /\ In (id, r) (OutlineP2.data_rows ex) /\
+      instantiate sc ex id r = inr e /\
+      In s (OutlineP2.outline_strs sc) /\ In (TPh (xe_name e)) (tokenize s) /\ row_find (xe_name e) r = None.
+Proof. exact OutlineP2.expand_list_error_names_placeholder. Qed.
+Print Assumptions C16_expand_list_error_names_an_unknown_placeholder.
+
+(* the feature: all rules and the top level expanded, or a SINGLE error (rules are expanded first, in order) *)
+Theorem C16_expand_feature_succeeds_iff :
+  forall rules top rs t, expand_feature rules top = inl (rs, t) <->
+    Forall (Forall OutlineP2.scen_known) rules /\ Forall OutlineP2.scen_known top /\
+    rs = map (flat_map OutlineP2.expand_out) rules /\ t = flat_map OutlineP2.expand_out top.
+Proof. exact OutlineP2.expand_feature_inl_known_iff. Qed.
+Print Assumptions C16_expand_feature_succeeds_iff.
+
+Theorem C16_expand_feature_fails_iff :
+  forall rules top e, expand_feature rules top = inr e <->
+    (exists rs1 r rs2,
+       rules = rs1 ++ r :: rs2 /\ Forall (Forall OutlineP2.scen_known) rs1 /\ expand_list r = inr e) \/
+    (Forall (Forall OutlineP2.scen_known) rules /\ expand_list top = inr e).
+Proof. exact OutlineP2.expand_feature_inr_iff. Qed.
+Print Assumptions C16_expand_feature_fails_iff.
+
+(* non-vacuity: three tables (one header-only), placeholders in name, step text, doc string and cells *)
+Example C16_whole_expansion_nonvacuous :
+  expand_list [OutlineP2.Examples.plain1; OutlineP2.Examples.sc; OutlineP2.Examples.plain2]
+  = inl [OutlineP2.Examples.plain1; OutlineP2.Examples.row1; OutlineP2.Examples.row2; OutlineP2.Examples.row3;
+         OutlineP2.Examples.plain2].
+Proof. exact OutlineP2.Examples.in_place. Qed.
